@@ -26,6 +26,9 @@ pub struct Field {
     pub is_attribute: bool,
     pub is_choice: bool,
     pub is_any: bool,
+    /// a reference into the XML namespace (`xml:lang`, `xml:space`): the one kind of member that is
+    /// written with a prefix nobody has to declare
+    pub is_xml_reference: bool,
 }
 
 impl<'n> TryFromNode<'n> for Field {
@@ -74,6 +77,7 @@ impl<'n> TryFromNode<'n> for Field {
                 is_attribute: false,
                 is_choice: false,
                 is_any: true,
+                is_xml_reference: false,
             });
         }
 
@@ -93,6 +97,7 @@ impl<'n> TryFromNode<'n> for Field {
                     is_attribute,
                     is_choice,
                     is_any: false,
+                    is_xml_reference: true,
                 });
             }
 
@@ -132,6 +137,7 @@ impl<'n> TryFromNode<'n> for Field {
                 is_attribute,
                 is_choice,
                 is_any: false,
+                is_xml_reference: false,
             });
         }
 
@@ -156,6 +162,7 @@ impl<'n> TryFromNode<'n> for Field {
             is_attribute,
             is_choice,
             is_any: false,
+            is_xml_reference: false,
         })
     }
 }
@@ -176,7 +183,13 @@ where
         let attribute_header = if self.is_attribute { ", attribute = true" } else { "" };
 
         // attributes are unqualified (they are in no namespace), only elements carry the prefix
-        if let Some(tns) = self.target_namespace.as_ref().filter(|_| !self.is_attribute) {
+        if self.is_xml_reference {
+            writeln!(
+                writer,
+                "    #[yaserde(prefix = \"xml\", rename = {:?}{attribute_header})]",
+                self.xml_name
+            )?;
+        } else if let Some(tns) = self.target_namespace.as_ref().filter(|_| !self.is_attribute) {
             writeln!(
                 writer,
                 "    #[yaserde(prefix = {:?}, rename = {:?}{attribute_header})]",
